@@ -181,6 +181,8 @@ def replay(cfg, events):
                     e["result"] = len(facade(e["g"]))
                 elif op == "contains":
                     e["result"] = tuple(v.conc(x) for x in e["t"]) in facade(e["g"])
+                elif op == "contexts_of":
+                    e["result"] = [v.abst(c if not isinstance(c, Graph) else c.identifier) for c in store.contexts(tuple(v.conc(x) for x in e["t"]))]
                 elif op == "contexts":
                     e["result"] = [v.abst(c if not isinstance(c, Graph) else c.identifier) for c in store.contexts()]
                 else:
